@@ -230,6 +230,17 @@ pub fn gen_case(rng: &mut Rng) -> Case {
             headers.push((n.to_string(), v.as_bytes().to_vec()));
         }
     }
+    // a header name may come as several field lines (cookie crumbs of an HTTP/2 client, x-forwarded-for ...): every line is
+    // forwarded (kept next to its first line, as the header map orders them)
+    if rng.chance(1, 3) {
+        if let Some(k) = (0..headers.len()).find(|k| !["host", "proxy-authorization", "proxy-connection"].contains(&headers[*k].0.as_str())) {
+            let (n, _) = headers[k].clone();
+            headers.insert(k + 1, (n.clone(), b"second=line".to_vec()));
+            if rng.chance(1, 2) {
+                headers.insert(k + 2, (n, b"third".to_vec()));
+            }
+        }
+    }
     // request body
     let mut body: Vec<Vec<u8>> = vec![];
     if ["POST", "PUT"].contains(&method.as_str()) {
